@@ -272,6 +272,30 @@ pub fn run(ctx: &Ctx) -> Result<(), String> {
         }
     }
 
+    // requests that arrive EARLY: after main has bound every worker's socket, possibly before the
+    // worker has built its Server and registered the socket; they are answered all the same
+    {
+        let versions = [Version::Classic, Version::Ietf13];
+        let plans: Vec<(usize, Vec<usize>, usize)> = ctx.tier.pick(vec![(1, vec![0], 64), (2, vec![0, 1], 2)], vec![(1, vec![0], 64), (1, vec![0, 0], 64), (2, vec![0, 1], 3), (2, vec![1, 1], 3), (3, vec![0, 1, 2], 2)]); // (N, request -> worker, bound)
+        for (n, dist, bound) in plans {
+            let scn = Scenario {
+                name: format!("early-n{}-dist{:?}", n, dist),
+                workers: n,
+                health: false,
+                stats: false,
+                batch_size: 2,
+                env: vec![],
+                idle_iteration: false,
+                horizon: 400,
+                expect: Expect::Serving,
+                probe_at_end: false,
+            };
+            let d2 = dist.clone();
+            let s = explore(ctx, "controlled-schedule/early-requests", &scn, &move |slot: &Slot| env_for(slot, n, &d2, &versions), bound, ctx.tier.pick(1500, 30000), Duration::from_secs(ctx.tier.pick(25, 90)))?;
+            sched.merge(s);
+        }
+    }
+
     // static audit of the hook-granularity assumption; unlisted sharing constructs make the
     // free-running stress below run longer (they are not a verdict by themselves)
     let unlisted = crate::audit::shared_state_audit();
@@ -345,7 +369,7 @@ pub fn run(ctx: &Ctx) -> Result<(), String> {
     ctx.cov("caps_hit", json!(sched.caps_hit));
     ctx.cov("exhaustive", json!(sched.caps_hit.is_empty()));
     ctx.cov("bound", json!({"in_process": ctx.tier.pick("W=2,K=3,depth 6", "W=2,K=4,depth 8; W=3,K=3,depth 6"), "controlled": ctx.tier.pick("N=2,K=2, preemption bound 2, distributions up to worker symmetry", "N in {2,3}, K in {2,3}, every distribution up to worker symmetry, preemption bound 3/2/2/1, 90 s wall cap per scenario")}));
-    ctx.cov("rule", json!("(1) in-process: W real Server objects from one seed; all event sequences of the depth bound over {deliver(next request -> worker w), step(w)} (the harness plays the kernel's distribution), completed to quiescence: exactly one reply per request, from the worker it was delivered to, authentic for that request under the single long-term key, per-responder delegated keys stable and distinct; plus bursts larger than one event-loop call handles (e.g. 20 requests per worker at batch_size 1) spread over the workers and queued before the first step; and, with per-client statistics on, W workers sharing ONE statistics queue of capacity 2W: every assignment of R rounds (request, step, statistics hand-off) to the workers x every position of a single reporter pass (or none) — no hand-off fails or blocks, every request answered, every worker serves afterwards. (2) the real server process under the controlled scheduler: K requests whose source ports are chosen through the learned port->worker map to realise each distribution; schedules over the hook points (loop_top, polled, collected, sent, flag_check of each worker, environment sends) explored with iterative preemption bounding; same oracle plus no thread exit/panic and every worker back at loop_top. (3) sampled: free-running binary with 64 concurrent closed-loop reference clients (quick: 15 rounds, num_workers {4,16}; thorough: 60 rounds, {1,2,4,8,16}); a failure observed there is a real failing execution, its absence is not a proof."));
+    ctx.cov("rule", json!("(1) in-process: W real Server objects from one seed; all event sequences of the depth bound over {deliver(next request -> worker w), step(w)} (the harness plays the kernel's distribution), completed to quiescence: exactly one reply per request, from the worker it was delivered to, authentic for that request under the single long-term key, per-responder delegated keys stable and distinct; plus bursts larger than one event-loop call handles (e.g. 20 requests per worker at batch_size 1) spread over the workers and queued before the first step; and, with per-client statistics on, W workers sharing ONE statistics queue of capacity 2W: every assignment of R rounds (request, step, statistics hand-off) to the workers x every position of a single reporter pass (or none) — no hand-off fails or blocks, every request answered, every worker serves afterwards. (2) the real server process under the controlled scheduler: K requests whose source ports are chosen through the learned port->worker map to realise each distribution; schedules over the hook points (loop_top, polled, collected, sent, flag_check of each worker, environment sends) explored with iterative preemption bounding; same oracle plus no thread exit/panic and every worker back at loop_top; and scenarios in which the requests may arrive EARLY (as soon as every worker's socket is bound, before a worker has built its Server). (3) sampled: free-running binary with 64 concurrent closed-loop reference clients (quick: 15 rounds, num_workers {4,16}; thorough: 60 rounds, {1,2,4,8,16}); a failure observed there is a real failing execution, its absence is not a proof."));
     ctx.sample(json!({"kind":"multi","workers":2,"events":["Deliver(0)","Deliver(1)","Step(1)","Deliver(0)","Step(0)"]}));
     ctx.sample(json!({"kind":"schedule","scenario":"load-n2-k2-dist[0, 1]","schedule":["env:send(c3,C)","worker-0@loop_top(0)","env:send(c0,I)","worker-1@loop_top(0)","worker-0@polled(1)"]}));
     ctx.assume("interleavings are explored at hook granularity; all cross-thread communication of the server goes through hooked operations or kernel sockets (static audit: no static mut / unsafe / shared Mutex besides the config lock, the KEEP_RUNNING flag and the stats queue)");
